@@ -2,6 +2,7 @@
 CONSTANT SubmeshStep = 48
 CONSTANT AnimBoneRule = "table"
 CONSTANT RelocAdvanceAlways = FALSE
+CONSTANT SaveTruncates = TRUE
 CONSTANT ViewBatchBytes = 96
 INIT Init
 NEXT Next
